@@ -83,27 +83,40 @@ func runC15(c *Ctx) {
 			key := fnName(f) + "#make"
 			// uses
 			toBase, toExec, other := false, false, ""
-			for _, ref := range *mm.Referrers() {
-				switch r := ref.(type) {
-				case *ssa.Store:
-					if fa, ok := r.Addr.(*ssa.FieldAddr); ok && structName(fa.X.Type()) == "DataContext" && fieldOf(fa).Name() == "base" {
-						if _, fresh := x.Origin(fa.X).(*ssa.Alloc); fresh {
-							toBase = true
+			// the uses of the new map, looking through a private local variable it is first put in
+			var uses func(v ssa.Value, d int)
+			uses = func(v ssa.Value, d int) {
+				for _, ref := range *v.Referrers() {
+					switch r := ref.(type) {
+					case *ssa.Store:
+						if fa, ok := r.Addr.(*ssa.FieldAddr); ok && structName(fa.X.Type()) == "DataContext" && fieldOf(fa).Name() == "base" {
+							if _, fresh := x.Origin(fa.X).(*ssa.Alloc); fresh {
+								toBase = true
+								continue
+							}
+						}
+						if al, ok := r.Addr.(*ssa.Alloc); ok && !al.Heap && d < 3 && len(x.stores[al]) == 1 {
+							for _, cu := range *al.Referrers() {
+								if ld, isLd := cu.(*ssa.UnOp); isLd {
+									uses(ld, d+1)
+								}
+							}
 							continue
 						}
+						other = "stored to " + x.Describe(r.Addr)
+					case *ssa.Call:
+						if calleeIs(r, pBase, "RuleContent", "Execute") && fnName(f) == "RuleEntity.Execute" {
+							toExec = true
+							continue
+						}
+						other = "passed to " + x.Describe(r)
+					case *ssa.DebugRef:
+					default:
+						other = fmt.Sprintf("used by %T", ref)
 					}
-					other = "stored to " + x.Describe(r.Addr)
-				case *ssa.Call:
-					if calleeIs(r, pBase, "RuleContent", "Execute") && fnName(f) == "RuleEntity.Execute" {
-						toExec = true
-						continue
-					}
-					other = "passed to " + x.Describe(r)
-				case *ssa.DebugRef:
-				default:
-					other = fmt.Sprintf("used by %T", ref)
 				}
 			}
+			uses(mm, 0)
 			if toBase && other == "" {
 				c.Check("V1-one-store-per-execution", key, true, in.Pos(), "the injected table of a new data context")
 				return
